@@ -198,14 +198,20 @@ func (b *bmpClient) loop() {
 				return false
 			}
 
+			// The Loc-RIB instance is identified by the AS number and router id its
+			// Peer Up carries: every later message of this connection repeats them,
+			// whatever happens to the global configuration meanwhile (StopBgp clears it).
+			localAS := b.s.bgpConfig.Global.Config.As
+			routerID := b.s.bgpConfig.Global.Config.RouterId
+
 			// RFC9069 (minimal): announce a single Loc-RIB instance only when
 			// route-monitoring-policy includes local-rib.
 			sentLocRIBPeerUp := false
 			if b.c.RouteMonitoringPolicy == oc.BMP_ROUTE_MONITORING_POLICY_TYPE_LOCAL_RIB || b.c.RouteMonitoringPolicy == oc.BMP_ROUTE_MONITORING_POLICY_TYPE_ALL {
 				// For now, use PD=0 and VRF/Table Name="global".
 				if err := write(bmpLocRIBPeerUp(
-					b.s.bgpConfig.Global.Config.As,
-					b.s.bgpConfig.Global.Config.RouterId,
+					localAS,
+					routerID,
 					"global",
 					0,
 					time.Now().Unix(),
@@ -257,8 +263,8 @@ func (b *bmpClient) loop() {
 					case *watchEventBestPath:
 						info := &table.PeerInfo{
 							Address: netip.IPv4Unspecified(),
-							AS:      b.s.bgpConfig.Global.Config.As,
-							ID:      b.s.bgpConfig.Global.Config.RouterId,
+							AS:      localAS,
+							ID:      routerID,
 						}
 						for _, p := range locRIBPathsForBMP(msg) {
 							if p == nil {
@@ -308,7 +314,7 @@ func (b *bmpClient) loop() {
 				case <-b.dead:
 					// RFC9069 (minimal): close the announced Loc-RIB instance.
 					if sentLocRIBPeerUp {
-						_ = write(bmpLocRIBPeerDown(b.s.bgpConfig.Global.Config.As, b.s.bgpConfig.Global.Config.RouterId, "global", 0, time.Now().Unix()))
+						_ = write(bmpLocRIBPeerDown(localAS, routerID, "global", 0, time.Now().Unix()))
 					}
 					term := bmp.NewBMPTermination([]bmp.BMPTermTLVInterface{
 						bmp.NewBMPTermTLV16(bmp.BMP_TERM_TLV_TYPE_REASON, bmp.BMP_TERM_REASON_PERMANENTLY_ADMIN),
